@@ -200,9 +200,10 @@ PROPS = {
         assumptions=["the listener is bound to an interface or the kernel reported the receiving one; the excluded point (link-level reply with no interface information) dereferences a nil control message in the code and is `panicNoIf` in the model"],
     ),
     "C02": dict(
-        engines=[("range", 2500, 40000)],
+        engines=[("range", 2500, 40000), ("rangec", 1000, 15000)],
         theorems=["C02_holds", "C02_progress"],
         modules=["CoreDhcp.Props.C02"],
+        facts=["F1"],
         trusted_base=[TB_BITSET, TB_SQLITE, TB_CLOCK],
         assumptions=["Handler4 is one atomic step (PluginState mutex held by defer for the whole call; fact F1)",
                      "sequential histories; concurrent schedules reduce to them by F1 (see C16)"],
@@ -218,17 +219,18 @@ PROPS = {
     "C20": dict(
         engines=[("ipcalc", 20000, 300000)],
         theorems=["C20_offset_exact", "C20_offset_symm", "C20_addPrefixes_exact", "C20_inverse",
-                  "C20_offset_spec", "C20_addPrefixes_spec", "C20_D1_prefix_refuted"],
-        modules=["CoreDhcp.Props.C20"],
+                  "C20_offset_spec", "C20_addPrefixes_spec", "C20_D1_prefix_refuted", "GEN_offset_eq", "GEN_addPrefixes_eq"],
+        modules=["CoreDhcp.Props.C20", "CoreDhcp.Props.Gen"],
         trusted_base=[TB_STD],
         assumptions=["Offset/AddPrefixes are modelled for 16-byte addresses (the only form the allocator passes once C19 holds)",
                      "unit > 128 in AddPrefixes and unaligned bases in Offset are outside the property's domain: executed, logged as drift only"],
         rule="128-bit operands biased to carry/borrow patterns, every p in 0..128; executed on allocators.Offset/AddPrefixes and compared with the Lean model and the Nat-level spec; trivial = Offset of equal/adjacent addresses giving 0 or AddPrefixes with n=0; distinct = distinct (op,result) lines",
     ),
     "C04": dict(
-        engines=[("alloc6", 6000, 120000), ("alloc4", 6000, 120000)],
+        engines=[("alloc6", 6000, 120000), ("alloc4", 6000, 120000), ("allocc", 2000, 30000)],
         theorems=["C04_alloc6", "C04_alloc4"],
         modules=["CoreDhcp.Props.C04"],
+        facts=["F1"],
         trusted_base=[TB_BITSET, TB_STD],
         assumptions=["each Allocate/Free is one atomic step (mutex held for the whole call; fact F1)",
                      "bitset.New returned a set of the requested length (pools up to 2^24 blocks are modelled in the driver)"],
